@@ -19,6 +19,7 @@ import EPV.Lemmas.StringsJoin
 import EPV.Lemmas.StringsCollation
 import EPV.Lemmas.StringsToken
 import EPV.Lemmas.StringsNumber
+import EPV.Lemmas.StringsNumber2
 import EPV.Lemmas.StringsCase2
 namespace EPV.C09
 open EPV.FOStrings (Str Num Err)
@@ -487,7 +488,35 @@ theorem contains_token_eq_spec (col : Collation) (input : List Str) (token : Str
 
 /-! ## non-string arguments: `string_value` of booleans and numbers vs XPath 1.0 `string()` -/
 
-/-- PARTIAL (known finding F09g).  Full statement: for every boolean, integer, decimal and double
+/-- The conversion used by every caller reachable from the XPath 1.0 parser (`compat_string_value`,
+fix-c09-4: `string`, `concat`, `string-length`, `normalize-space`, string arguments converted in
+compatibility mode) is the XPath 1.0 §4.2 `string()` of every boolean, integer, decimal and double:
+NaN, Infinity, -Infinity, 0 for both zeros, integers without point, otherwise digits.digits without
+exponent, leading or trailing zeros — at full strength (F09g repaired through this sibling). -/
+theorem string_value_xpath1_eq_spec (a : FOStrings.NumArg) (hw : Strings.NumArgWf a) :
+    Strings.compatStringValue true a = FOStrings.xp1String a :=
+  Strings.compatStringValue_eq_xp1 a hw
+
+/-- test (literals): the F09g inputs through the sibling: +INF, 1e16, 1e-05, -0.0 -/
+example : Strings.compatStringValue true (.finf false) = FOStrings.xp1String (.finf false) ∧
+    Strings.compatStringValue true (.flt false [1] 17) = [49,48,48,48,48,48,48,48,48,48,48,48,48,48,48,48,48] ∧
+    Strings.compatStringValue true (.flt false [1] (-4)) = [48,46,48,48,48,48,49] ∧
+    Strings.compatStringValue true (.flt true [0] 1) = [48] := by decide
+
+/-- outside the XPath 1.0 parser the sibling is the unchanged helper -/
+theorem compat_string_value_other_versions (a : FOStrings.NumArg) :
+    Strings.compatStringValue false a = Strings.stringValue a := by
+  cases a with
+  | finf neg => cases neg <;> rfl
+  | flt neg ds p => rfl
+  | bool b => rfl
+  | int v => rfl
+  | dec n d e => rfl
+  | fnan => rfl
+
+/-- About the *unchanged helper* `XPathToken.string_value` (its texts `1E99`, `1E-05`, `INF` are pinned
+by the repository's tests; no caller of the XPath 1.0 parser reaches it any more).  Full statement:
+for every boolean, integer, decimal and double
 `string_value` returns the XPath 1.0 §4.2 `string()` text (NaN, Infinity, -Infinity, 0 for both
 zeros, integers without point, otherwise digits.digits without exponent, leading or trailing zeros).
 It is proved for all arguments outside `xp1Trigger` (infinite floats, negative zero, floats that
@@ -498,7 +527,7 @@ theorem string_value_xpath1_partial (a : FOStrings.NumArg) (hw : Strings.NumArgW
     (ht : Strings.xp1Trigger a = false) : Strings.stringValue a = FOStrings.xp1String a :=
   Strings.stringValue_eq_xp1 a hw ht
 
-/-- F09g: the full statement fails inside the trigger: `+INF`, `1e16`, `1e-05`, `-0.0` -/
+/-- the helper differs from XPath 1.0 `string()` inside the trigger: `+INF`, `1e16`, `1e-05`, `-0.0` -/
 theorem string_value_xpath1_fails :
     Strings.stringValue (.finf false) ≠ FOStrings.xp1String (.finf false) ∧
     Strings.stringValue (.flt false [1] 17) ≠ FOStrings.xp1String (.flt false [1] 17) ∧
